@@ -178,3 +178,22 @@ def fields_monotone_any(y1: int, j1: int, y2: int, j2: int) -> bool:
     if "month" in COMBO and "quarter" not in COMBO:
         old = old._replace(quarter=a.quarter)      # the reader derives the quarter from the month
     return v2version._is_cal_gt(old, b) is False
+
+
+CAL_PARTS = [p for p in rm.PARTS if rm.PARTS[p] in rm.CAL_FIELDS][P.get("group", 0)::P.get("groups", 1)]
+
+
+def part_wiring(yy: int, yg: int, q: int, m: int, d: int, j: int, w: int, u: int, v: int) -> bool:
+    """every calendar part renders the field it is named after (independent symbolic values per field, so a part wired to the
+    wrong field shows): the ISO year parts GGGG/GG/0G the ISO year, VV/0V the ISO week, YYYY/YY/0Y the calendar year, ...
+    — this ties the pairings accepted by the week guard to the monotone field pairs of L1
+    pre: 2001 <= yy <= 2098 and 2001 <= yg <= 2098 and 1 <= q <= 4 and 1 <= m <= 12 and 1 <= d <= 31 and 1 <= j <= 366
+    pre: 0 <= w <= 53 and 0 <= u <= 53 and 1 <= v <= 53
+    post: _
+    """
+    st = {"year_y": yy, "year_g": yg, "quarter": q, "month": m, "dom": d, "doy": j, "week_w": w, "week_u": u, "week_v": v}
+    pv = dict(v2version._format_part_values(BASE._replace(**st)))
+    for part in CAL_PARTS:
+        if pv[part] != rm.fmt_part(part, st):
+            return False
+    return True
